@@ -137,9 +137,22 @@ def run_asis(rep, which):
 
 
 # ------------------------------------------------------------------------------------------- schedules (BrokerStep)
-def gen_schedules(rep, quick, seed, want):
+FAMILIES = {
+    # name: (cfg, what, GOMAXPROCS values each scenario is run with, quick sample size)
+    "focus": ("Step_focus.cfg", "membership churn incl. redundant Unsubscribe (twice, nil, stray channel): edge cover", (0,), 700),
+    "busy": ("Step_busy.cfg", "Subscribe / Unsubscribe issued while the event loop is held up by a full blocking distributor, "
+             "then Publish: edge cover per configuration", (1, 4), 450),
+    "buffered": ("Step_buffered.cfg", "buffered subscription channels x two dispatch workers x subscriber pauses x Stop / "
+                 "parent cancel / Wait: edge cover per configuration", (1, 4), 350),
+    "window": ("Step_window.cfg", "Stop / parent cancel while the dispatcher is held between its emptiness check and its "
+               "park (yield point pubsub.wait.before-cond-wait)", (0,), 200),
+}
+
+
+def gen_schedules(rep, quick, seed, want, families=()):
     """Scenarios from BrokerStep (edge cover; thorough: + all short sequences; + random deep ones), each paired with
-    configurations drawn from BrokerStep!StepConfigs.  Returns (schedules, lossless configs)."""
+    configurations drawn from BrokerStep!StepConfigs; plus the scenario families of FAMILIES (those marked per
+    configuration carry their own).  Returns (schedules, lossless configs)."""
     r = tlc.run_tlc(COMP, "BrokerStep", "Step_edge.cfg", workers=1, timeout=900)
     rep.add_tlc("BrokerStep/Step_edge.cfg", r, "one shortest driver schedule per edge of the abstract scenario graph")
     if not r.ok or "CFGS" not in r.tagged:
@@ -148,12 +161,15 @@ def gen_schedules(rep, quick, seed, want):
     cfgs = sorted(r.tagged["CFGS"][0], key=lambda c: json.dumps(c, sort_keys=True))
     lossless = r.tagged["LOSSLESS"][0]
     scen = replay.dedupe(r.tagged.get("BEH", []))
-    rf = tlc.run_tlc(COMP, "BrokerStep", "Step_focus.cfg", workers=1, timeout=600)
-    rep.add_tlc("BrokerStep/Step_focus.cfg", rf, "edge cover of the membership-churn scenarios (Subscribe / Unsubscribe / pause / Publish only)")
-    if not rf.ok:
-        rep.infra_error("BrokerStep focus generation failed: " + rf.out[-1200:])
-        return [], []
-    focus = replay.dedupe(rf.tagged.get("BEH", []))
+    fam = {}
+    for name in families:
+        cfg, what, procs, nquick = FAMILIES[name]
+        rf = tlc.run_tlc(COMP, "BrokerStep", cfg, workers=1, timeout=600)
+        rep.add_tlc("BrokerStep/" + cfg, rf, what)
+        if not rf.ok:
+            rep.infra_error("BrokerStep %s generation failed: %s" % (cfg, rf.out[-1200:]))
+            return [], []
+        fam[name] = replay.dedupe(rf.tagged.get("BEH", []))
     rs = tlc.run_tlc(COMP, "BrokerStep", "Step_sim.cfg", workers=1, simulate=dict(num=100 if quick else 250), depth=20,
                      seed=seed, timeout=900)
     rep.add_tlc("BrokerStep/Step_sim.cfg", rs, "random deep driver schedules (-simulate)")
@@ -170,18 +186,23 @@ def gen_schedules(rep, quick, seed, want):
             return [], []
         allseq = replay.dedupe(ra.tagged.get("BEH", []))
     rng = random.Random(seed)
-    # stratify by the kinds of steps a scenario contains so that rare scenario classes are not sampled away
-    groups = collections.defaultdict(list)
-    for b in scen:
-        groups[(b[-1]["op"],) + tuple(sorted({s["op"] for s in b[1:]}))].append(b)
-    order = []
-    keys = sorted(groups)
-    for g in keys:
-        rng.shuffle(groups[g])
-    while any(groups[g] for g in keys):
+
+    def stratified(bs):
+        """round robin over groups of scenarios with the same last step and step kinds: rare classes are not sampled away"""
+        groups = collections.defaultdict(list)
+        for b in bs:
+            groups[(b[0]["a"], b[0]["n"], b[0]["w"], b[-1]["op"], len({s["a"] for s in b[1:] if s["op"] == "pub"}))
+                   + tuple(sorted({s["op"] for s in b[1:]}))].append(b)
+        keys = sorted(groups)
         for g in keys:
-            if groups[g]:
-                order.append(groups[g].pop())
+            rng.shuffle(groups[g])
+        order = []
+        while any(groups[g] for g in keys):
+            for g in keys:
+                if groups[g]:
+                    order.append(groups[g].pop())
+        return order
+    order = stratified(scen)
     rng.shuffle(sim)
     rng.shuffle(allseq)
     if quick:
@@ -192,13 +213,26 @@ def gen_schedules(rep, quick, seed, want):
     ll = [c for c in cfgs if c in lossless]
     k, kl = rng.randrange(len(cfgs)), rng.randrange(len(ll))
 
-    def with_cfg(b, c):
-        return [dict(op="new", a=c["a"], n=c["n"], w=c["w"], par=c["par"], buf=c["buf"])] + b[1:]
-    # the membership-churn scenarios always run completely: twice on lossless configurations
-    for b in focus:
-        for _ in range(2):
-            out.append(with_cfg(b, ll[kl % len(ll)]))
-            kl += 1
+    def with_cfg(b, c, procs=0):
+        return [dict(op="new", a=c["a"], n=c["n"], w=c["w"], par=c["par"], buf=c["buf"], h=b[0].get("h", False),
+                     procs=procs)] + b[1:]
+    counts = {}
+    for name in families:
+        cfg, what, procs, nquick = FAMILIES[name]
+        bs = stratified(fam[name])
+        if quick:
+            bs = bs[:nquick]
+        counts[name] = dict(generated=len(fam[name]), executed=len(bs) * len(procs))
+        for b in bs:
+            for p in procs:
+                if name == "focus":      # configuration-independent: runs on lossless configurations (all of C08 is judged there)
+                    out.append(with_cfg(b, ll[kl % len(ll)], p))
+                    kl += 1
+                else:
+                    out.append(with_cfg(b, b[0], p))
+            if name == "focus" and not quick:
+                out.append(with_cfg(b, ll[kl % len(ll)]))
+                kl += 1
     for i, b in enumerate(picked):
         # every scenario runs on a lossless configuration (all of C08 is judged there) ...
         if not quick or i % 2 == 0:
@@ -208,8 +242,8 @@ def gen_schedules(rep, quick, seed, want):
         if not quick or i % 2 == 1:
             out.append(with_cfg(b, cfgs[k % len(cfgs)]))
             k += 1
-    rep.cov["scenarios_generated"] = dict(edge=len(scen), focus=len(focus), simulated=len(sim), all_sequences=len(allseq), configs=len(cfgs),
-                                          executed=len(out))
+    rep.cov["scenarios_generated"] = dict(edge=len(scen), families=counts, simulated=len(sim), all_sequences=len(allseq),
+                                          configs=len(cfgs), executed=len(out))
     return out, lossless
 
 
